@@ -15,6 +15,95 @@ REQUIRED_ENUM_CHECKS = ["TrnType", "DynType", "GainType", "BiasType", "EqType", 
 RENAMES = {}
 
 
+MJ_SPARSE_PARTS = {"efc_J_rownnz", "efc_J_rowadr", "efc_J_colind"}
+MJW_SPARSE_PARTS = {"J_rownnz", "J_rowadr", "J_colind"}
+
+
+def check_layout_predicates(res, fi) -> int:
+  """R-LAYOUT.14: MuJoCo decides the layout of MjData.efc_J with mj_isSparse(); mujoco_warp decides the layout of
+  Data.efc.J with is_sparse() (they differ for jacobian=auto and 32 < nv < 60). Every host access to the MjData-side
+  efc_J structure must be control-dependent on a test that resolves to mujoco.mj_isSparse, every access to the
+  Data-side sparse structure on a test that resolves to is_sparse - a writer/reader layout agreement."""
+  fn = fi.node
+  parents = {}
+  for n in ast.walk(fn):
+    for c in ast.iter_child_nodes(n):
+      parents[c] = n
+  mjd_vars = {a.arg for a in fn.args.args + fn.args.kwonlyargs if a.annotation is not None and unparse(a.annotation).endswith("MjData")}
+  d_vars = {a.arg for a in fn.args.args + fn.args.kwonlyargs if a.annotation is not None and unparse(a.annotation).split(".")[-1] == "Data"}
+  # single-assignment locals -> their value expression
+  assigns = {}
+  for n in ast.walk(fn):
+    if isinstance(n, ast.Assign) and len(n.targets) == 1 and isinstance(n.targets[0], ast.Name):
+      assigns.setdefault(n.targets[0].id, []).append(n.value)
+
+  def resolve(test, depth=0):
+    """set of predicate names a test depends on: 'mj' (mujoco.mj_isSparse), 'mjw' (is_sparse / m.is_sparse)"""
+    out = set()
+    for x in ast.walk(test):
+      if isinstance(x, ast.Call):
+        f = unparse(x.func)
+        if f.endswith("mj_isSparse"):
+          out.add("mj")
+        elif f.split(".")[-1] == "is_sparse":
+          out.add("mjw")
+      elif isinstance(x, ast.Attribute) and x.attr == "is_sparse":
+        out.add("mjw")
+      elif isinstance(x, ast.Name) and x.id in assigns and len(assigns[x.id]) == 1 and depth < 3:
+        out |= resolve(assigns[x.id][0], depth + 1)
+    return out
+
+  def controlling(node):
+    """[(predicates, branch)] of enclosing ifs, innermost first"""
+    out = []
+    while node in parents:
+      par = parents[node]
+      if isinstance(par, ast.If) and node is not par.test:
+        preds = resolve(par.test)
+        if preds:
+          out.append((preds, "then" if any(node is b for b in par.body) else "else", par))
+      node = par
+    return out
+
+  n = 0
+  for x in ast.walk(fn):
+    if not isinstance(x, ast.Attribute):
+      continue
+    base = unparse(x.value)
+    side = None
+    if base in mjd_vars and (x.attr in MJ_SPARSE_PARTS or x.attr == "efc_J"):
+      side, want, sparse_part = "MjData", "mj", x.attr in MJ_SPARSE_PARTS
+    elif x.attr in MJW_SPARSE_PARTS and base.split(".")[0] in d_vars and base.endswith(".efc") and isinstance(parents.get(x), ast.Attribute) and parents[x].attr == "numpy":
+      side, want, sparse_part = "Data", "mjw", True
+    if side is None:
+      continue
+    ctl = controlling(x)
+    if not ctl:
+      if side == "MjData" and not sparse_part:
+        continue  # size-only uses of efc_J outside any layout test
+      n += 1
+      res.ob(False, f"{fi.key}|{side}.{x.attr}|{x.lineno - fn.lineno}", Finding("R-LAYOUT.14", f"{fi.key}|{side}.{x.attr}|no-layout-test", f"{side} sparse Jacobian part `{unparse(x)}` is accessed outside any sparse/dense layout test", f"{fi.file}:{x.lineno}"))
+      continue
+    n += 1
+    # the innermost test that mentions a layout predicate decides the layout of this access
+    owner = next(((p, br, node) for p, br, node in ctl if want in p), None)
+    wrong = next(((p, br, node) for p, br, node in ctl if want not in p), None)
+    ok = owner is not None and (not sparse_part or owner[1] == "then")
+    pred_name = "mujoco.mj_isSparse" if want == "mj" else "is_sparse"
+    res.ob(
+      ok,
+      f"{fi.key}|{side}.{x.attr}|{x.lineno - fn.lineno}",
+      Finding(
+        "R-LAYOUT.14",
+        f"{fi.key}|{side}.{x.attr}|wrong-layout-predicate",
+        f"`{unparse(x)}` is accessed under a layout test that does not resolve to {pred_name}() (line {ctl[0][2].lineno}: `{unparse(ctl[0][2].test)[:60]}`): {side}'s efc_J layout is decided by {pred_name}, and the two predicates differ for jacobian=auto with 32 < nv < 60",
+        f"{fi.file}:{x.lineno}",
+      ),
+      sample={"function": fi.key, "access": unparse(x), "test": unparse(ctl[0][2].test)[:60]} if n % 6 == 1 else None,
+    )
+  return n
+
+
 def run(db, res, tier):
   sm = db.sm
   pm = sm.func("io.put_model")
@@ -87,7 +176,11 @@ def run(db, res, tier):
         if X in mujoco_attrs.MJDATA_ATTRS or True:
           pass
   res.floor("get_data_into copies", ncopy, 70)
-  res.rule_text = "R-VALID: put_model validates membership for every typed field whose enum the kernels dispatch on; R-LAYOUT: every types.Model field is an MjModel attribute (copied by name; oracle: attribute names of the installed mujoco) or assigned in put_model, every symbolic dimension of the array specs is defined in put_model's size table; get_data_into copies each MjData field from the same-named Data field at [world_id]"
+  nlay = 0
+  for fname in ("io.put_data", "io.get_data_into"):
+    nlay += check_layout_predicates(res, sm.func(fname))
+  res.floor("efc_J layout accesses under a layout predicate", nlay, 14)
+  res.rule_text = "R-VALID: put_model validates membership for every typed field whose enum the kernels dispatch on; R-LAYOUT: every types.Model field is an MjModel attribute (copied by name; oracle: attribute names of the installed mujoco) or assigned in put_model, every symbolic dimension of the array specs is defined in put_model's size table; get_data_into copies each MjData field from the same-named Data field at [world_id]; R-LAYOUT.14: every host access to MjData's efc_J sparse structure is control-dependent on mujoco.mj_isSparse() and every access to Data.efc's sparse structure on is_sparse()"
   res.explanation = "Coverage clauses of C31. Not decided: value equality, contact/efc reordering logic."
   res.extra["analysed"] = {"model_fields": nfields, "dimensions": ndim, "get_data_into_copies": ncopy, "enum_checks": sorted(checked)}
   res.assumptions += ["MjModel/MjData attribute names of mujoco 3.13.0 (tables/mujoco_attrs.py)"]
